@@ -7,9 +7,11 @@
    `check` recomputes the winner with the model.
    codes: 0 agree, 1 cascaded value differs, 3 precedence table differs,
           4 weight.Less differs, 5 flattened rule list differs,
-          6 cascaded value differs from the SPECIFICATION (CDocSpec: documents
-            outside the domain of the model = spec theorem, i.e. with `&` in a
-            top-level rule, are compared with CascadeSpec.cascaded directly). *)
+          6 cascaded value differs from the SPECIFICATION while it agrees with the
+            model (CDocSpec: documents outside the domain of the model = spec
+            theorem, i.e. with `&` in a top-level rule, are compared with
+            CascadeSpec.cascaded directly; a CDocSpec document on which the
+            implementation differs from the model gets code 1). *)
 From Verif Require Export Css.Cascade Css.CascadeSpec Css.CascadeImport.
 From Coq Require Import List NArith Bool.
 Import ListNotations.
@@ -144,7 +146,12 @@ Definition check (c : case) : N :=
       if forallb (fun e => nlist_eqb (elem_out (used d) e) (elem_impl e)) elems then 0 else 1
   | CDocSpec _ _ _ _ _ _ _ _ _ elems =>
       let d := to_doc c in
-      if forallb (fun e => nlist_eqb (elem_out (cascaded d) e) (elem_impl e)) elems then 0 else 6
+      (* 6 = the documented deviation only: the implementation does what the
+         faithful model says (top-level `&` weighs (0,1,0)) and that differs from
+         the specification; anything else is an ordinary disagreement *)
+      if forallb (fun e => nlist_eqb (elem_out (used d) e) (elem_impl e)) elems
+      then if forallb (fun e => nlist_eqb (elem_out (cascaded d) e) (elem_impl e)) elems then 0 else 6
+      else 1
   | CPrec o i out => if declaration_precedence o i =? out then 0 else 3
   | CLess a b out => if Bool.eqb (w_less a b) out then 0 else 4
   | CFlat dev fs r out => if flat_eqb (dump_flat (flatten_env dev (to_env fs) r)) out then 0 else 5
